@@ -679,6 +679,29 @@ pub struct DbDefault {
     pub class: String,
     pub prop: String,
     pub lacking_first: bool,
+    /// write instances of a class two levels below `class` in a database that extends the bundled
+    /// one (every default is then inherited through at least two steps), given to both codecs
+    #[serde(default)]
+    pub deep: bool,
+}
+
+/// The bundled database plus, below every class B, `ZzDeep1B` and below that `ZzDeep2B`; neither
+/// declares anything.
+fn deep_db() -> &'static rbx_reflection::ReflectionDatabase<'static> {
+    static DB: std::sync::OnceLock<rbx_reflection::ReflectionDatabase<'static>> = std::sync::OnceLock::new();
+    DB.get_or_init(|| {
+        let mut db = rbx_reflection_database::get().clone();
+        let names: Vec<String> = db.classes.keys().map(|k| k.to_string()).collect();
+        for b in names {
+            let mut c1 = rbx_reflection::ClassDescriptor::new(format!("ZzDeep1{b}"));
+            c1.superclass = Some(b.clone().into());
+            let mut c2 = rbx_reflection::ClassDescriptor::new(format!("ZzDeep2{b}"));
+            c2.superclass = Some(format!("ZzDeep1{b}").into());
+            db.classes.insert(format!("ZzDeep1{b}").into(), c1);
+            db.classes.insert(format!("ZzDeep2{b}").into(), c2);
+        }
+        db
+    })
 }
 
 fn db_default_cases() -> Vec<DbDefault> {
@@ -701,8 +724,9 @@ fn db_default_cases() -> Vec<DbDefault> {
                 continue;
             }
             for lacking_first in [false, true] {
-                out.push(DbDefault { class: class.clone(), prop: sp.name.clone(), lacking_first });
+                out.push(DbDefault { class: class.clone(), prop: sp.name.clone(), lacking_first, deep: false });
             }
+            out.push(DbDefault { class: class.clone(), prop: sp.name.clone(), lacking_first: out.len() % 2 == 0, deep: true });
         }
     }
     out
@@ -724,14 +748,32 @@ fn db_default_body(c: &DbDefault, ctx: &mut CaseCtx) -> PropResult {
         GVal::Content(vals::GContent::Object(_)) => GVal::Content(vals::GContent::Object(vals::GRef::Node(0))),
         other => other,
     };
-    let carrying = GNode { parent: None, class: c.class.clone(), name: "carries".into(), props: vec![(c.prop.clone(), set)] };
-    let lacking = GNode { parent: None, class: c.class.clone(), name: "lacks".into(), props: vec![] };
+    let file_class = if c.deep { format!("ZzDeep2{}", c.class) } else { c.class.clone() };
+    let carrying = GNode { parent: None, class: file_class.clone(), name: "carries".into(), props: vec![(c.prop.clone(), set)] };
+    let lacking = GNode { parent: None, class: file_class.clone(), name: "lacks".into(), props: vec![] };
     let f = GForest { nodes: if c.lacking_first { vec![lacking, carrying] } else { vec![carrying, lacking] }, roots: vec![0, 1] };
-    let Ok(bytes) = serialize(&f) else {
-        ctx.excluded("not serializable");
-        return Ok(());
+    let d = if c.deep {
+        ctx.label("default_inherited_through_two_more_levels_of_a_custom_database");
+        let built = forest::build(&f, BuildMode::Builder, None);
+        let roots = built.root_refs(&f);
+        let mut bytes = Vec::new();
+        let res = crate::engine::catch(|| rbx_binary::Serializer::new().reflection_database(deep_db()).serialize(&mut bytes, &built.dom, &roots))
+            .map_err(|i| Fail::new("c08:deep:panic", format!("serializer with a custom database panicked: {}", i.msg)))?;
+        if res.is_err() {
+            ctx.excluded("not serializable");
+            return Ok(());
+        }
+        let dom = crate::engine::catch(|| rbx_binary::Deserializer::new().reflection_database(deep_db()).deserialize(bytes.as_slice()))
+            .map_err(|i| Fail::new("c08:deep:panic", format!("deserializer with a custom database panicked: {}", i.msg)))?
+            .map_err(|e| Fail::new("c08:deep:decode-error", format!("reader with the same custom database rejected the file: {e}")))?;
+        forest::observe(&dom)
+    } else {
+        let Ok(bytes) = serialize(&f) else {
+            ctx.excluded("not serializable");
+            return Ok(());
+        };
+        forest::observe(&read_binary(&bytes)?)
     };
-    let d = forest::observe(&read_binary(&bytes)?);
     let got = d.roots.iter().find(|r| r.name == "lacks").and_then(|r| r.props.get(&view.roundtrip).cloned());
     let def = oracle::default_as_read(&c.class, &view.canonical).unwrap();
     let inherited = dbview::db().classes.get(c.class.as_str()).map(|k| !k.default_properties.contains_key(view.canonical.as_str())).unwrap_or(false);
@@ -843,7 +885,8 @@ pub fn run(ctx: &Ctx) -> PropertyReport {
         let cases = if ctx.cfg.replay.is_some() { vec![] } else { db_default_cases() };
         let mut r = ctx.run_list("database-defaults", cases, true, db_default_body);
         r.floor("default_inherited_from_a_superclass", 50);
-        r.notes.push("every (class, canonical property) of the bundled database with a default value, stated or inherited, in both sibling orders".into());
+        r.floor("default_inherited_through_two_more_levels_of_a_custom_database", 1000);
+        r.notes.push("every (class, canonical property) of the bundled database with a default value, stated or inherited, in both sibling orders; and once more for a class two levels below it in a custom database (bundled database plus two empty subclasses per class) given to both codecs".into());
         rep.push(r);
     }
     if sub.runs("shared-serialized-name") {
